@@ -208,8 +208,9 @@ Definition do_deftype (t : vtype) : RM unit :=
            | Hang => (r, Hang)
            end.
 
-(* Arc::get_mut(&mut source).unwrap() : panics while a snapshot is alive *)
-Definition need_unique : RM unit := fun r => if 0 <? r_snap r then (r, Panic) else (r, Ok tt).
+(* Arc::make_mut(&mut source): a live snapshot keeps its own copy, the edit proceeds
+   (before /repo commit 20d8377 this was Arc::get_mut(..).unwrap(), a panic while a snapshot was alive) *)
+Definition need_unique : RM unit := fun r => (r, Ok tt).
 
 Definition do_delete : RM event :=
   rdo p <~ pop2 ;;
@@ -765,8 +766,7 @@ Definition enter_direct (r : rt) (l : line) : rt :=
 
 Definition enter_indirect (r : rt) (l : line) : res rt :=
   let r1 := set_cont r StStopped in
-  if 0 <? r_snap r1 then Panic
-  else match fst l, snd l with
+  match fst l, snd l with
        | Some n, [] =>
            Ok (set_dirty (set_listing r1 (with_lines (r_listing r1) (lines_remove (ls_lines (r_listing r1)) n)))
                          (r_dirty r1 || lines_has (ls_lines (r_listing r1)) n))
